@@ -1,5 +1,4 @@
 package main
 
-func runCrash(path string) { panic("not built yet") }
 func runFault(path string) { panic("not built yet") }
 func runCodec(path string) { panic("not built yet") }
